@@ -64,6 +64,20 @@ CHECKS["C20"] = dict(
           "contract of the dependency; fault enumeration over file-system calls is a different technique family. pathlib/tqdm modelled."),
     design="DESIGN.md section 4 C20")
 
+CHECKS["C16"] = dict(
+    text=("Proof (z3 string/regex theory) that registration._check_and_normalize_names accepts exactly the names of the form "
+          "ns::name[.overload] that do not end in .default — the shipped regular expression is re-translated from the real pattern "
+          "text on every run; path contracts for torch_op.wrapper (private functions not registered, every name registered) and "
+          "Registry.register (first registration wins, at most one real and one complex function per name; bounded stand-in with "
+          "3 symbolic registrations). The binding half is ground over the finite registry: for every function of get_torchlib_ops() "
+          "the torch overload exists and the exporter's positional/keyword binding of the installed torch schema to the function's "
+          "op signature is total (tensor arguments to inputs, no required parameter unbound, only listed arguments dropped) and every "
+          "scripted FunctionProto passes onnx.checker — exhaustive evaluation. 22 individually named known findings."),
+    note=("Assumed: installed torch/torchvision schemas and onnx.checker are the data oracles; the exporter's binding rule is transcribed "
+          "from torch.onnx._internal.exporter._building; 'accepting attribute type' of non-tensor arguments is not checked beyond input/attribute kind."),
+    design="DESIGN.md section 4 C16",
+    technique="contract-based: z3 regex/string VCs and path contracts on the real registration code + exhaustive evaluation of ground binding obligations over the finite registry")
+
 NOT_APPLICABLE = {
     "C08": "oracle is PyTorch eager for ~550 ATen ops; no contract within reach can state it (DESIGN.md section 5)",
     "C19": "fused operators are ONNX Runtime contrib kernels defined only by ORT C++; no deductive oracle (DESIGN.md section 5)",
